@@ -26,8 +26,8 @@ ASSUMPTIONS = [
     "resolution: a relative sensitivity error below ~1e-6 (non-linear modules) would pass",
 ]
 
-QUICK = 2400
-THOROUGH = 60000
+QUICK = 6000
+THOROUGH = 120000
 
 
 def budget(tier):
